@@ -126,7 +126,9 @@ def generate():
         prods = [pt.Production.parse(t) for t in texts]
         g = lr1.Grammar(start, list(prods))
         parser = g.parser()
-        if parser.conflicts:
+        # (the f10 grammar is reported for its unproductive nonterminal since the repair of F10;
+        # its tables are still built and are the counterexample of C08_error_position)
+        if [c for c in parser.conflicts if isinstance(c, lr1.Conflict)]:
             raise common.InfraError("example grammar %s has conflicts" % name)
         for p in g.productions:
             sym(p.lhs)
